@@ -361,17 +361,25 @@ def classify(component, what, case):
     return case.get("triage")
 
 
-def flat(doc):
-    """impl-tagged XML print -> Counter of (path, text, is_default) for terminal nodes and presence of inner nodes"""
+def flat(doc, lists=()):
+    """impl-tagged XML print -> Counter of (path, text, is_default) for terminal nodes and presence of inner nodes; elements
+    named in `lists` (list nodes) carry their position among the same-named siblings in the path (`l3[2]/l10[1]/ll12`), so
+    that equal content in different list instances is told apart"""
     import collections
     st = expat_structure(doc)
     c = collections.Counter()
     if st is None:
         return None
-    path = []
+    path, seen = [], [collections.Counter()]
     for i, (d, ns, ln, text, attrs) in enumerate(st):
         del path[d:]
-        path.append(ln)
+        del seen[d + 1:]
+        seg = ln
+        if ln in lists:
+            seen[d][ln] += 1
+            seg = "%s[%d]" % (ln, seen[d][ln])
+        path.append(seg)
+        seen.append(collections.Counter())
         leafish = not (i + 1 < len(st) and st[i + 1][0] == d + 1)
         dflt = any(k.endswith("default") and v == "true" for k, v in attrs.items())
         c[("/".join(path), text if leafish else None, dflt)] += 1
@@ -382,33 +390,38 @@ def triage_cell(schema, cell, orig_xml, back_xml, err=""):
     """-> finding id when the difference is exactly one of the recorded ones, else None"""
     fo, wd, res = cell
     byname = {n.name: n for n in schema.nodes}
+    lists = set(n.name for n in schema.nodes if n.kind == "list")
     def sn(path):
-        return byname.get(path.split("/")[-1])
-    a = flat(orig_xml)
+        return byname.get(path.split("/")[-1].split("[")[0])
+    a = flat(orig_xml, lists)
     if res == "R" and wd in ("trim", "all-tag") and err.startswith("Mandatory choice") and a is not None:
         # F46 in a mandatory choice: the dropped default-valued leaf was what selected the case
-        b = flat(back_xml)
+        b = flat(back_xml, lists)
         if b is not None:
             # what the (parse-only) re-read lacks must be exactly default-valued content that selected a case
             import collections
             a2 = collections.Counter((p, t) for (p, t, d) in a.elements())
             b2 = collections.Counter((p, t) for (p, t, d) in b.elements())
-            kinds = set()
+            kinds, selects = set(), False
             for (p, t) in (a2 - b2).elements():
                 n = sn(p)
                 if n is None:
                     return None
                 if n.kind in ("container", "list") or t is None:
                     continue          # an inner node that became empty / disappeared with its only content
-                if n.kind == "leaflist" and t.encode() in n.dflts and in_nondefault_case(n):
+                if n.kind == "leaflist" and t.encode() in n.dflts:
                     kinds.add("F17")  # an explicit leaf-list instance equal to one of the defaults is treated as default
+                    selects = selects or in_nondefault_case(n)
                 elif n.kind == "leaf" and n.dflt is not None and t.encode() == n.dflt and in_nondefault_case(n):
                     kinds.add("F46")
+                    selects = True
                 else:
                     return None
-            if "F17" in kinds:
-                return "F17"
-            return "F46" if kinds else None
+            if not selects:
+                return None           # nothing of what was dropped selected a case: the rejection has another cause
+            if "F46" in kinds:
+                return "F46"
+            return "F17" if kinds else None
         for (p, t, d) in a.elements():
             n = sn(p)
             if n is not None and n.kind == "leaf" and n.dflt is not None and t is not None and t.encode() == n.dflt and in_nondefault_case(n):
@@ -416,7 +429,7 @@ def triage_cell(schema, cell, orig_xml, back_xml, err=""):
         return None
     if res != "!":
         return None
-    b = flat(back_xml)
+    b = flat(back_xml, lists)
     if a is None or b is None:
         return None
     missing, extra = a - b, b - a
